@@ -22,7 +22,7 @@ RULE = ("one run = 1-3 disjoint component groups, 5-40 unique requests sent thro
         "distribute_power completing as drawn (synchronously, after one iteration, after a delay, raising); "
         "non-trivial = at least one request arrived while one of the same group was in flight; distinct = "
         "distinct abstract event sequence (kind, group) of sends/enters/exits")
-EXPECT_PROBES = ["arrival_while_in_flight", "send_at_completion", "sync_completion", "equal_valued_request", "actor_stop_start"]
+EXPECT_PROBES = ["arrival_while_in_flight", "send_at_completion", "sync_completion", "equal_valued_request", "actor_stop_start", "overlapping_groups"]
 QUICK_RUNS = 6000
 THOROUGH_RUNS = 400_000
 
@@ -77,6 +77,11 @@ class State:
     def __init__(self, sim: Sim, ngroups: int) -> None:
         self.sim = sim
         self.groups = [frozenset({10 * (g + 1) + 1, 10 * (g + 1) + 2}) for g in range(ngroups)]
+        if ngroups > 1 and sim.ch.chance("overlapping_groups", 0.25):
+            # different component sets that share a component are different groups (processed independently,
+            # as the class documents); each of them still has to obey the property
+            self.groups = [frozenset({g + 1, g + 2}) for g in range(ngroups)]
+            sim.probe("overlapping_groups")
         self.group_of = {ids: g for g, ids in enumerate(self.groups)}
         self.sent: list[list[int]] = [[] for _ in range(ngroups)]      # indices sent, per group
         self.started: list[list[int]] = [[] for _ in range(ngroups)]
